@@ -164,6 +164,9 @@ def bank_histories(mon, spec):
         ns = 1 if (cfg['have_virt_ext'] and rng.random() < 0.7) else 0
         if cfg['have_security_ext']:
             r.scr.ns = ns
+            if ns == 0 and rng.random() < 0.4:
+                r.nsacr.value |= 1 << 19          # NSACR.RFR = 1 restricts FIQ mode in NON-secure state only: no effect here
+                mon.bump('histories_with_nsacr_rfr_in_secure_state')
         modes = ctx.legal_modes(ns)
         # cells that exist / are accessible in this configuration and security state
         audit_modes = [m for m in ('usr', 'fiq', 'irq', 'svc', 'abt', 'und', 'sys') if m in modes]
